@@ -7,7 +7,7 @@ INVARIANT Emit
 CONSTANTS
   MaxN = 3
   PoolSel = "tiny"
-  Codes = {65, 307}
+  Codes = {307}
   MaxRules = 1
   RuleTypes = {1, 3, 4}
   LigLens = {1, 2}
